@@ -191,6 +191,10 @@ class ElemEngine:
         self._memo = {}
         self._stack = []
         self._supp = ()
+        self._active = {}
+        import sys
+        if sys.getrecursionlimit() < 20000:
+            sys.setrecursionlimit(20000)
         self.unknown_callees = set()
         self.visited = set()
 
@@ -502,8 +506,8 @@ class ElemEngine:
                 return frozenset(('m', OPAQUE_FNS[p], x, y) for x in args[0] for y in args[1])
             return top('opaque fn arity')
         if p in self.pdb.bodies:
-            if sum(1 for k in self._stack if isinstance(k[1], tuple) and k[1][:1] == ('call',) and k[1][1] == p) > 1 or len(self._stack) > 120:
-                return top('recursive or too deep call of ' + p)
+            if len(self._stack) > 400:
+                return top('call nesting too deep at ' + p)
             return self.ev_incrate(env, t)
         s = short(p)
         if p in ELEMS_OF_ARG0 or p.endswith('::to_owned') or p.endswith('::clone'):
@@ -531,6 +535,10 @@ class ElemEngine:
             return self.apply_closure(env, a[0], arg_list)
         if p == 'indirect':
             return top('indirect call')
+        if p.endswith('as std::ops::Try>::branch'):
+            return self.ev(env, a[0])
+        if 'std::ops::FromResidual' in p:
+            return frozenset()
         if p in ('std::cmp::min', 'std::cmp::max', 'std::cmp::Ord::min', 'std::cmp::Ord::max', 'core::num::<impl i32>::abs',
                  'core::num::<impl i32>::pow', 'core::num::<impl u32>::pow', 'std::convert::TryInto::try_into',
                  'core::slice::<impl [T]>::contains', 'std::option::Option::<T>::is_some', 'std::option::Option::<T>::is_none',
@@ -575,7 +583,14 @@ class ElemEngine:
                 cl[i + 1] = (ck, cu)
         genv = Env(g, args, {})
         genv.closures.update(cl)
-        return self.ev_return(genv)
+        act = self._active.get(p, 0)
+        if act >= 2:
+            return top('recursive call of ' + p)
+        self._active[p] = act + 1
+        try:
+            return self.ev_return(genv)
+        finally:
+            self._active[p] = act
 
     def ev_arg(self, env, x):
         """argument passing: arrays are passed by their content"""
